@@ -805,7 +805,7 @@ def update_file(remote, local, verbose=False):
     try:
         with open(local, 'r', encoding="UTF-8") as local_file:
             lines = local_file.readlines()
-    except IOError:
+    except (IOError, UnicodeError):
         if verbose:
             print("update_file: no local copy, downloading full file")
         return download_file(remote, local)
